@@ -55,7 +55,7 @@ EXTERNAL = {
     'gzip.open#read': ['EOFError', 'OSError', 'zlib.error'],
     'mimetypes.guess_type': [],
     'os.utime': [],                   # local file system errors are not server data
-    'os.symlink': ['OSError'],        # the link name comes from a listing: a repeated or nested name fails whatever the disk's state
+    'os.symlink': ['OSError', 'ValueError'],   # the names come from a listing: repeated, nested, or containing NUL (ValueError: embedded null byte)
     'os.link': ['OSError'],
     'struct.unpack': ['struct.error'],
     'codecs.lookup': ['LookupError'],
